@@ -3,5 +3,5 @@ EXTENDS Relay
 MCNodes == {"A", "R", "T"}
 MCAddrOf == [n \in MCNodes |-> CASE n = "A" -> "a" [] n = "R" -> "r" [] n = "T" -> "t"]
 MCAmRelay == [n \in MCNodes |-> n = "R"]
-Bound == \A n \in MCNodes : Cardinality(recs[n]) <= 2
+Bound == Cardinality(recs["A"]) + Cardinality(recs["R"]) + Cardinality(recs["T"]) <= 2
 =============================================================================
